@@ -348,6 +348,7 @@ func c01(c *core.Ctx) {
 		}
 	}
 	c01time(c)
+	c01total(c)
 	c01variant(c)
 	c01closure(c)
 }
@@ -765,4 +766,43 @@ func c01time(c *core.Ctx) {
 	}
 	c.Ob("C01.time", "ua.Buffer·ReadTime arithmetic survives pre-1970 values", c.P.Pos(rd.Pos()), bad == "", "unsigned division / remainder / shift of the epoch-shifted wire value: "+orNone(bad))
 	_ = n
+}
+
+// c01total: the Variant value writer never writes nothing. Variant.encode hands every leaf of a (possibly nested) slice
+// value to encodeValue, whose type switch knows the built-in types; a value it has no case for — a [][]byte handed over
+// as a whole, a custom type — must be reported through the buffer's sticky error: written silently as zero bytes it
+// produces a message whose array length announces elements that are not there.
+func c01total(c *core.Ctx) {
+	c.Rule("C01.total", "Variant.encodeValue has no path that returns without either writing to the buffer or recording an error: a value of a type it has no case for is reported, not silently encoded as nothing", 1)
+	ev := fn(c, "ua", "Variant", "encodeValue")
+	errF := field(c, "ua", "Buffer", "err")
+	if ev == nil {
+		return
+	}
+	silent, tr := ssax.Reach(ev, nil, func(in ssa.Instruction) bool { _, ok := in.(*ssa.Return); return ok && in.Block() != ev.Recover }, func(in ssa.Instruction) bool {
+		switch x := in.(type) {
+		case *ssa.Store:
+			return true
+		case ssa.CallInstruction:
+			_ = x
+			return true
+		}
+		return false
+	}, func(a, b *ssa.BasicBlock) bool {
+		// the edge on which the buffer has already failed: the sticky error says so
+		ifi, ok := a.Instrs[len(a.Instrs)-1].(*ssa.If)
+		if !ok || errF == nil {
+			return false
+		}
+		cmp, neg, ok := ssax.AsCmp(ifi.Cond)
+		if !ok || loadedField(cmp.X).f != errF || !ssax.IsNil(cmp.Y) {
+			return false
+		}
+		op := cmp.Op
+		if neg {
+			op = ssax.NegOp(op)
+		}
+		return (op == token.NEQ && b == a.Succs[0]) || (op == token.EQL && b == a.Succs[1])
+	})
+	c.Ob("C01.total", fname(ev)+"·no silent arm", c.P.Pos(ev.Pos()), !silent, "a path through the type switch returns without any write or error: "+boolStr(silent), trace(c, tr)...)
 }
